@@ -82,11 +82,13 @@ func WithConfigFile(in *lcw.Input, r *rng.R) {
 	}
 	for _, x := range []kv{{"BUILDROOT", cfg.BuildRoot}, {"BINPKGS", cfg.BinPkg}, {"GENERATED_FILES", cfg.Gen},
 		{"OVERFS_WORKDIR", cfg.Work}, {"OVERFS_UPPERDIR", cfg.Upper}, {"EXPORT_BINPKGS", cfg.ExpBinPkg},
-		{"EXPORT_GENERATED_FILES", cfg.ExpGen}, {"CHROOT_EXEC", "/usr/bin/chroot"}} {
+		{"EXPORT_GENERATED_FILES", cfg.ExpGen}} {
 		if r.Chance(1, 4) {
 			keys = append(keys, x)
 		}
 	}
+	// the program `layercake chroot` starts: a stand-in that checks how it was started
+	keys = append(keys, kv{"CHROOT_EXEC", lcw.ChrootStub})
 	for i := len(keys) - 1; i > 0; i-- {
 		j := r.Intn(i + 1)
 		keys[i], keys[j] = keys[j], keys[i]
